@@ -3,8 +3,8 @@
   * instances of `IsiLaws` (non-vacuity of the step-6 theorem): every location–scale family with `LocScaleLaws`
     for a variable without bounds (tas / psl / rlds), and the uniform family `U[floc, floc + fscale]` — a genuine
     bounded family — for a variable with both bounds and thresholds (hurs-like);
-  * the left-censored gamma precipitation model of `ibicus.utils.gen_PrecipitationGammaLeftCensoredModel` used
-    inside parametric `QuantileMapping`, transcribed locally (the precipitation models belong to C17; no
+  * the left-censored gamma precipitation model `ibicus.utils.gen_PrecipitationGammaLeftCensoredModel` and the hurdle
+    model `gen_PrecipitationHurdleModel` used inside parametric `QuantileMapping`, transcribed locally (the precipitation models belong to C17; no
     `Model/Precip.lean` exists in this tree).  `Gh` = the fitted gamma cdf of `cm_hist`, `Qo` = the fitted gamma
     ppf of `obs` are parameters constrained by monotonicity only; the draws `u` are explicit.  The tie of this
     transcription to the code is the C09 oracle (real code) and a structural probe in `harness/c09.py`.
@@ -218,5 +218,58 @@ theorem censQM_subthreshold_pair_can_invert :
       rw [div_le_div_iff₀ h1 h2]; nlinarith
     linarith
   · decide +kernel
+
+/-! ### hurdle model inside parametric QuantileMapping (local transcription, like the censored model) -/
+
+/-- `gen_PrecipitationHurdleModel.cdf` (`cdf_randomization = True`): `where(x == 0, uniform(0, p0), p0 + (1 − p0)·G(x))` -/
+def hurdleCdf (Gh : Rat → Rat) (p0 x u : Rat) : Rat := if x = 0 then u else p0 + (1 - p0) * Gh x
+
+/-- `gen_PrecipitationHurdleModel.ppf`: `where(q > p0, Q((q − p0)/(1 − p0)), 0)` -/
+def hurdlePpf (Qo : Rat → Rat) (p0 q : Rat) : Rat := if q > p0 then Qo ((q - p0) / (1 - p0)) else 0
+
+/-- `_standard_qm` with the hurdle model: one value `x` with its draw `u` -/
+def hurdleQM1 (Gh Qo : Rat → Rat) (p0h p0o t x u : Rat) : Rat :=
+  hurdlePpf Qo p0o (thresholdCdf t (hurdleCdf Gh p0h x u))
+
+theorem hurdlePpf_mono (Qo : Rat → Rat) (p0o t : Rat) (ht0 : 0 < t) (hp1 : p0o < 1)
+    (hQ : ∀ p q : Rat, 0 < p → p ≤ q → q < 1 → Qo p ≤ Qo q) (hQ0 : ∀ p : Rat, 0 < p → p < 1 → 0 ≤ Qo p)
+    {a b : Rat} (hab : a ≤ b) (hb : b ≤ 1 - t) : hurdlePpf Qo p0o a ≤ hurdlePpf Qo p0o b := by
+  have hd : 0 < 1 - p0o := by linarith
+  have arg : ∀ q, q > p0o → q ≤ 1 - t → 0 < (q - p0o) / (1 - p0o) ∧ (q - p0o) / (1 - p0o) < 1 := by
+    intro q h1 h2
+    exact ⟨div_pos (by linarith) hd, by rw [div_lt_one hd]; linarith⟩
+  unfold hurdlePpf
+  by_cases ha : a > p0o
+  · have hb' : b > p0o := lt_of_lt_of_le ha hab
+    rw [if_pos ha, if_pos hb']
+    exact hQ _ _ (arg a ha (le_trans hab hb)).1 (div_le_div_of_nonneg_right (by linarith) (le_of_lt hd)) (arg b hb' hb).2
+  · rw [if_neg ha]
+    by_cases hb' : b > p0o
+    · rw [if_pos hb']; exact hQ0 _ (arg b hb' hb).1 (arg b hb' hb).2
+    · rw [if_neg hb']
+
+/-- **hurdle model, for every draw**: zeros are randomised below `p0` (the dry fraction of `cm_hist`), positive values
+    have cdf values `≥ p0`; hence a strictly smaller value never gets a larger output.  Non-negative data;
+    `Gh` / `Qo` = fitted amounts cdf / ppf, constrained by monotonicity and non-negativity only. -/
+theorem hurdleQM1_order (Gh Qo : Rat → Rat) (p0h p0o t : Rat) (ht0 : 0 < t) (ht : t ≤ 1 / 2)
+    (hp1 : p0h ≤ 1) (hpo : p0o < 1)
+    (hG : MonoR Gh) (hG0 : ∀ z : Rat, 0 ≤ Gh z)
+    (hQ : ∀ p q : Rat, 0 < p → p ≤ q → q < 1 → Qo p ≤ Qo q) (hQ0 : ∀ p : Rat, 0 < p → p < 1 → 0 ≤ Qo p)
+    (xi xj ui uj : Rat) (hxi : 0 ≤ xi) (hlt : xi < xj) (hui : ui ≤ p0h) :
+    hurdleQM1 Gh Qo p0h p0o t xi ui ≤ hurdleQM1 Gh Qo p0h p0o t xj uj := by
+  unfold hurdleQM1
+  have hxj : xj ≠ 0 := by intro h; rw [h] at hlt; linarith
+  have hc : hurdleCdf Gh p0h xi ui ≤ hurdleCdf Gh p0h xj uj := by
+    unfold hurdleCdf
+    rw [if_neg hxj]
+    have h1 : 0 ≤ (1 - p0h) * Gh xj := mul_nonneg (by linarith) (hG0 xj)
+    by_cases h0 : xi = 0
+    · rw [if_pos h0]; linarith
+    · rw [if_neg h0]
+      have := mul_le_mul_of_nonneg_left (hG xi xj (le_of_lt hlt)) (by linarith : (0 : Rat) ≤ 1 - p0h)
+      linarith
+  exact hurdlePpf_mono Qo p0o t ht0 hpo hQ hQ0 (Props.C16.thresholdCdf_mono t hc)
+    (Props.C16.thresholdCdf_range t _ ht).2
+
 
 end Lemmas.C09
